@@ -12,9 +12,9 @@ import (
 	"regexp"
 	"runtime"
 	"runtime/debug"
-	"sync"
 	"sort"
 	"strings"
+	"sync"
 	"time"
 
 	"verifsim/core"
@@ -50,7 +50,7 @@ type Result struct {
 	InfraError  string           `json:"infra_error,omitempty"`
 }
 
-const bitmapBits = 1 << 26
+var bitmapBits uint64 = 1 << 26
 
 var (
 	fW        = flag.String("w", "", "workload name")
@@ -71,6 +71,7 @@ var (
 	fRaceLog  = flag.String("racelog", "", "race detector log_path prefix (the runtime appends .<pid>)")
 	fMaxViol  = flag.Int("maxviol", 3, "stop collecting after this many distinct violations")
 	fDumpTape = flag.Bool("dumptape", false, "execute run -start once and print the tape it consumed as JSON")
+	fBmBits   = flag.Uint("bitmapbits", 26, "log2 of the distinct-fingerprint bitmap size")
 	fList     = flag.Bool("list", false, "list workloads")
 	fDescribe = flag.String("describe", "", "print the evidence description of a workload as JSON")
 	fVerbose  = flag.Bool("v", false, "with -replay: print the trace")
@@ -78,6 +79,7 @@ var (
 
 func main() {
 	flag.Parse()
+	bitmapBits = 1 << *fBmBits
 	if *fList {
 		for _, n := range work.Names() {
 			w := work.Get(n)
